@@ -516,12 +516,14 @@ def impl_merge(case):
     except Exception as e:
         return {"raised": type(e).__name__ + ": " + str(e)[:80]}
     order = [int(v) for v in m.positions_xyz[:, 0]]
+    qmap = {cq[i].tobytes(): i for i in range(len(cq))}
+    qorder = [qmap.get(np.asarray(q).tobytes(), -1) for q in m.orientations_quat_wxyz]
     n = len(cs)
     valid = len(order) == len(m.timestamps) == len(m.orientations_quat_wxyz) and all(0 <= i < n for i in order)
     own_stamp = valid and all(m.timestamps[k] == cs[i] for k, i in enumerate(order))
     own_quat = valid and all(np.array_equal(m.orientations_quat_wxyz[k], cq[i]) for k, i in enumerate(order))
     own_xyz = valid and all(np.array_equal(m.positions_xyz[k], cx[i]) for k, i in enumerate(order))
-    return {"order": order, "stamps": [float(t) for t in m.timestamps], "n": n, "valid": bool(valid),
+    return {"order": order, "qorder": qorder, "stamps": [float(t) for t in m.timestamps], "n": n, "valid": bool(valid),
             "own_stamp": bool(own_stamp), "own_quat": bool(own_quat), "own_xyz": bool(own_xyz)}
 
 
@@ -892,8 +894,9 @@ def judge_merge(ctx, case, impl, out):
     if judge_common(ctx, case, impl):
         ctx.record(case, False)
         return
-    mo, ms = out.split(";")
+    mo, mq, ms = out.split(";")
     m_order = parse_ids(mo)
+    m_qorder = parse_ids(mq)
     m_stamps = [core.parse_rat(x) for x in ms.split()]
     cs = [frac(t) for s in case["stamps"] for t in s]
     n = len(cs)
@@ -917,6 +920,8 @@ def judge_merge(ctx, case, impl, out):
         return g
     if got_stamps != m_stamps or groups(order, got_stamps) != groups(m_order, m_stamps):
         ctx.mismatch(case, "merge differs from Select.mergeTraj (ties compared as sets)", order[:40], m_order[:40])
+    elif len(impl["qorder"]) != len(m_qorder) or groups(impl["qorder"], got_stamps) != groups(m_qorder, m_stamps):
+        ctx.mismatch(case, "merge: orientations are ordered differently from Select.mergeTraj", impl["qorder"][:40], m_qorder[:40])
     ties = len(set(cs)) < n
     ctx.count("branch", "merge:ties" if ties else "merge:distinct-stamps")
     if order != m_order:
@@ -975,7 +980,8 @@ def shrink(case):
             c = dict(case)
             for key in per_pose:
                 c[key] = case[key][lo:hi]
-            c["steps"] = case["steps"][lo: max(lo, hi - 1)]
+            if "steps" in case:
+                c["steps"] = case["steps"][lo: max(lo, hi - 1)]
             if lo and "start" in case:
                 continue
             yield c
